@@ -898,6 +898,20 @@ func (g *Gen) seenKind(m *types.Map) string {
 	return k
 }
 
+// selectsInOrder: the select statements of the function under contract in source order.
+func (g *Gen) selectsInOrder() []*ssa.Select {
+	var out []*ssa.Select
+	for _, b := range g.topFn.Blocks {
+		for _, ins := range b.Instrs {
+			if s, ok := ins.(*ssa.Select); ok {
+				out = append(out, s)
+			}
+		}
+	}
+	sort.SliceStable(out, func(a, b int) bool { return out[a].Pos() < out[b].Pos() })
+	return out
+}
+
 // mapRanges: the map range instructions of the function under contract in source order.
 func (g *Gen) mapRanges() []*ssa.Range {
 	var rs []*ssa.Range
@@ -1129,6 +1143,13 @@ func (g *Gen) siteClauses(b *ssa.BasicBlock, ins ssa.CallInstruction, st *State,
 		}
 		if env == nil {
 			vars := g.namesAt(b, idx)
+			// $sel<k>: the index of the case the k-th select statement of the function (source order) has taken,
+			// once that select has been translated (on a path that did not pass it the value is unconstrained)
+			for k, sel := range g.selectsInOrder() {
+				if v, have := g.vals[sel]; have && len(v.Tuple) > 0 {
+					vars[fmt.Sprintf("$sel%d", k)] = v.Tuple[0]
+				}
+			}
 			// call arguments by the callee's formal names are also visible as $0, $1, ...
 			for i, a := range cc.Args {
 				if v, ok := g.valOpt(a); ok {
